@@ -786,6 +786,28 @@ theorem step_multi (r : Reg) (ks : List Key) (d : Nat) (h : Inv r) : Refines r (
     simp only [Refines, step, specStep, tryGetMultipleMut, hdist, hd, Bool.not_false, if_true, if_false]
     exact ⟨h, by trivial, by trivial⟩
 
+theorem step_multiP (r : Reg) (ks : List Key) (d : Nat) (h : Inv r) : Refines r (.multiP ks d) := by
+  by_cases hd : ks.Nodup
+  · have hdist : distinct ks = true := (distinct_iff ks).mpr hd
+    by_cases hall : ∀ k ∈ ks, (find r k).isSome = true
+    · have hall' : ks.all (fun k => ((abs r).lookup k).isSome) = true := by
+        simp only [List.all_eq_true]; intro k hk; rw [lookup_isSome]; exact hall k hk
+      obtain ⟨h1, h2⟩ := writeAll_refines ks d r r (fun _ => rfl) hall h
+      simp only [Refines, step, specStep, tryGetMultipleMut, hdist, getAllMut_ok r ks hall, hd, hall', if_true,
+        Bool.not_true, Bool.false_eq_true, if_false, vals_resolved, and_self]
+      exact ⟨h1, by trivial, h2⟩
+    · have hall' : ¬ ks.all (fun k => ((abs r).lookup k).isSome) = true := by
+        simp only [List.all_eq_true]; intro h'; apply hall; intro k hk; rw [← lookup_isSome]; exact h' k hk
+      simp only [Refines, step, specStep, tryGetMultipleMut, hdist, getAllMut_err r ks hall, hd, hall', if_true,
+        Bool.not_true, Bool.false_eq_true, if_false, and_false]
+      exact ⟨h, by trivial, by trivial⟩
+  · have hdist : distinct ks = false := by
+      cases hx : distinct ks with
+      | false => rfl
+      | true => exact absurd ((distinct_iff ks).mp hx) hd
+    simp only [Refines, step, specStep, tryGetMultipleMut, hdist, hd, Bool.not_false, if_true, if_false, false_and]
+    exact ⟨h, by trivial, by trivial⟩
+
 /-! ### value access next to a live guard -/
 
 theorem modify_back (r : Reg) (i : Nat) (k : Key) (c c' : Cell) (e : Bool) (hc : cellAt r i k = some c)
@@ -849,6 +871,7 @@ theorem step_refines (r : Reg) (op : ROp) (h : Inv r) : Refines r op := by
   cases op with
   | gset k v => exact (step_guarded r k v h).1
   | gget k => exact (step_guarded r k 0 h).2
+  | multiP ks d => exact step_multiP r ks d h
   | ins k v => exact step_ins r k v h
   | rem k => exact (step_rem r k h).1
   | take k => exact (step_rem r k h).2
@@ -1096,7 +1119,7 @@ theorem step_nodupKeys (r : Reg) (op : ROp) (h : nodupKeys r) : nodupKeys (step 
     · simp only [under]
       exact nodupKeys_append _ _ (nodupKeys_take r d h) (nodupKeys_insert _ k v (nodupKeys_drop r d h))
     · exact h
-  | multi ks d =>
+  | multi ks d | multiP ks d =>
     simp only [step]
     split
     · exact nodupKeys_writeAll _ _ _ h
@@ -1146,7 +1169,7 @@ def ROp.keys : ROp → List Key
   | .getMut k _ | .entOrIns k _ | .entOrWith k _ | .entOrDef k | .entMod k _ | .entModV k _ | .entModOrIns k _ _
   | .occGet k | .occGetMut k _ | .occIntoMut k _ | .occIns k _ | .occRem k | .vacIns k _ | .parGet _ k
   | .parIns _ k _ | .req k | .gset k _ | .gget k => [k]
-  | .multi ks _ => ks
+  | .multi ks _ | .multiP ks _ => ks
   | .push | .pop | .dump => []
 
 /-- Not a raw scope push/pop (inside closure bodies scopes come from `with_inner_state`). -/
@@ -1254,6 +1277,10 @@ theorem specStep_frame (sp : Spec) (o : ROp) (q : Key) (hq : q ∉ ROp.keys o) (
     · split
       · exact col_addAll ks sp q d hq
       · rfl
+    · rfl
+  case multiP ks d =>
+    split
+    · exact col_addAll ks sp q d hq
     · rfl
   case push => cases hflat
   case pop => cases hflat
@@ -1401,6 +1428,12 @@ theorem specStep_tail_frame (m : PMap) (p : Spec) (o : ROp) (q : Key) (hl : o.is
           rw [h1]; simpa [col] using h3
         · simp [col]
       · simp [col]
+    case multiP ks d =>
+      simp only [specStep]
+      split
+      · obtain ⟨m', p', h1, _, h3⟩ := col_tail_addAll ks d q m p hm
+        rw [h1]; simpa [col] using h3
+      · simp [col]
     case parIns d v =>
       have : d = 0 := by simpa using hl
       subst this
@@ -1471,6 +1504,7 @@ theorem specStep_length (sp : Spec) (o : ROp) (hflat : o.flat = true) (hne : sp 
       simp [setTop_length _ k _ hdn]; omega
     · rfl
   case multi ks d => split <;> (try split) <;> simp [addAll_length]
+  case multiP ks d => split <;> simp [addAll_length]
   case entModOrIns k d v =>
     split
     · simp [updFirst_length]
